@@ -136,9 +136,9 @@ func c03Segment(stream []byte, mask int) [][]byte {
 
 type c03Params struct {
 	Depth2 bool `json:"depth2"` // only the operation sequences of depth <= 2
-	Len   int  `json:"len"`
-	First int  `json:"first"` // index of the first byte in the alphabet (shard)
-	Lazy  bool `json:"lazy"`  // chunks arrive one at a time, only when the reader is blocked
+	Len    int  `json:"len"`
+	First  int  `json:"first"` // index of the first byte in the alphabet (shard)
+	Lazy   bool `json:"lazy"`  // chunks arrive one at a time, only when the reader is blocked
 }
 
 var c03StatusName = []string{"ok", "BLOCKED", "Interrupted"}
